@@ -97,6 +97,17 @@ def run(chk):
     for sep in ("\u00a0", "\u2003", "\t", "  ", "", "\u00a0 ", " \u00a0", "\u3000x", "é", "\r"):
         for kw in ("says", "said", "say"):
             cases.append({"src": f"Tommy {kw}{sep}hello world\nsay Tommy\n", "meta": {"says-separator": sep}})
+    # every token spelling (keyword aliases in three cases, contractions, 'n', numbers, symbols, non-ASCII words) as an element of a
+    # poetic number literal: first, in the middle, last, after the decimal point, in a `rock ... like` literal
+    from . import gen_pairs
+    sp = [w for w in gen_pairs.spellings() if "\n" not in w and '"' not in w and "(" not in w]
+    for i, w in enumerate(sp):
+        forms = [f"X is salt {w} pepper\nsay X\n", f"X is {w}\nsay X\n", f"X is {w} sync\nsay X\n", f"X was lovely {w}\nsay X\n",
+                 f"X is a. b {w} ccc\nsay X\n", f"rock X like fish {w} chips\nsay X at 0\n"]
+        for j, f in enumerate(forms):
+            if quick and (i + j) % 3:
+                continue
+            cases.append({"src": f, "meta": {"poetic-element": w}})
     recs = execsuite.run(chk, cases, "poetic", suite_name="EXEC-poetic")
     known_finding_f12(chk)
     bad = 0
